@@ -38,7 +38,7 @@ Proof. intros W Hp Hlt H. rewrite sem_unfold in H by assumption. exact H. Qed.
 
 (* ======================================================================================== *)
 (* first_valuation: least satisfying valuation                                               *)
-Lemma first_least b : wf b -> reduced b -> forall fuel p w, valid b p -> p <> 0 -> enough b p fuel ->
+Lemma first_least b : wf b -> nz b -> forall fuel p w, valid b p -> p <> 0 -> enough b p fuel ->
   sem b p w = true -> lexle_from (var_of b p) (nvars b) (tval (trace fuel b (low_zero b) p) false) w.
 Proof.
   intros W R. induction fuel as [|f IH]; intros p w V Hp E Hs; [unfold enough in E; lia|].
@@ -116,7 +116,7 @@ Qed.
 Theorem first_valuation_none b : is_false b = true -> first_valuation b = Ok None.
 Proof. intros H. unfold first_valuation. now rewrite H. Qed.
 
-Theorem first_valuation_spec b : Canonical b -> is_false b = false ->
+Theorem first_valuation_spec_benign b : Benign b -> is_false b = false ->
   exists l, first_valuation b = Ok (Some l) /\ sat_list b l /\ forall l', sat_list b l' -> lex_le l l'.
 Proof.
   intros (W & R & _) Hf. unfold first_valuation. rewrite Hf.
@@ -131,11 +131,16 @@ Proof.
     destruct (path_vars b W _ (root b) 1 Vr P) as (_ & _ & Hin & _). intros y c Hy. apply (Hin y c Hy).
   - apply first_least; [exact W|exact R|exact Vr|exact Hr|apply enough_root; exact W|exact He'].
 Qed.
+Print Assumptions first_valuation_spec_benign.
+
+Theorem first_valuation_spec b : Canonical b -> is_false b = false ->
+  exists l, first_valuation b = Ok (Some l) /\ sat_list b l /\ forall l', sat_list b l' -> lex_le l l'.
+Proof. intros C. apply first_valuation_spec_benign. apply canonical_benign. exact C. Qed.
 Print Assumptions first_valuation_spec.
 
 (* ======================================================================================== *)
 (* last_valuation: greatest satisfying valuation                                             *)
-Lemma last_greatest b : wf b -> reduced b -> forall fuel p w, valid b p -> p <> 0 -> enough b p fuel ->
+Lemma last_greatest b : wf b -> nz b -> forall fuel p w, valid b p -> p <> 0 -> enough b p fuel ->
   sem b p w = true ->
   lexle_from (var_of b p) (nvars b) w (tval (trace fuel b (fun p => negb (high_zero b p)) p) true).
 Proof.
@@ -175,7 +180,7 @@ Qed.
 Theorem last_valuation_none b : is_false b = true -> last_valuation b = Ok None.
 Proof. intros H. unfold last_valuation. now rewrite H. Qed.
 
-Theorem last_valuation_spec b : Canonical b -> is_false b = false ->
+Theorem last_valuation_spec_benign b : Benign b -> is_false b = false ->
   exists l, last_valuation b = Ok (Some l) /\ sat_list b l /\ forall l', sat_list b l' -> lex_le l' l.
 Proof.
   intros (W & R & _) Hf. unfold last_valuation. rewrite Hf.
@@ -191,6 +196,11 @@ Proof.
     destruct (path_vars b W _ (root b) 1 Vr P) as (_ & _ & Hin & _). intros y c Hy. apply (Hin y c Hy).
   - apply last_greatest; [exact W|exact R|exact Vr|exact Hr|apply enough_root; exact W|exact He'].
 Qed.
+Print Assumptions last_valuation_spec_benign.
+
+Theorem last_valuation_spec b : Canonical b -> is_false b = false ->
+  exists l, last_valuation b = Ok (Some l) /\ sat_list b l /\ forall l', sat_list b l' -> lex_le l' l.
+Proof. intros C. apply last_valuation_spec_benign. apply canonical_benign. exact C. Qed.
 Print Assumptions last_valuation_spec.
 
 (* ======================================================================================== *)
@@ -218,7 +228,7 @@ Definition diverges_with (c : bool) (ds ds' : list dec) : Prop :=
 Lemma diverges_cons c xc ds ds' : diverges_with c ds ds' -> diverges_with c (xc :: ds) (xc :: ds').
 Proof. intros (pre & x & r & r' & -> & ->). exists (xc :: pre), x, r, r'. split; reflexivity. Qed.
 
-Lemma first_div b : wf b -> reduced b -> forall fuel p ds', valid b p -> p <> 0 -> enough b p fuel -> path b p ds' 1 ->
+Lemma first_div b : wf b -> nz b -> forall fuel p ds', valid b p -> p <> 0 -> enough b p fuel -> path b p ds' 1 ->
   ds' = trace fuel b (low_zero b) p \/ diverges_with false (trace fuel b (low_zero b) p) ds'.
 Proof.
   intros W R. induction fuel as [|f IH]; intros p ds' V Hp E P; [unfold enough in E; lia|].
@@ -239,7 +249,7 @@ Proof.
         exists [], (var_of b p), (trace f b (low_zero b) (child b p false)), r'. split; reflexivity.
 Qed.
 
-Lemma last_div b : wf b -> reduced b -> forall fuel p ds', valid b p -> p <> 0 -> enough b p fuel -> path b p ds' 1 ->
+Lemma last_div b : wf b -> nz b -> forall fuel p ds', valid b p -> p <> 0 -> enough b p fuel -> path b p ds' 1 ->
   ds' = trace fuel b (fun p => negb (high_zero b p)) p \/
   diverges_with true (trace fuel b (fun p => negb (high_zero b p)) p) ds'.
 Proof.
@@ -268,7 +278,7 @@ Theorem last_clause_none b : is_false b = true -> last_clause b = Ok None.
 Proof. intros H. unfold last_clause. now rewrite H. Qed.
 
 (* the returned clause is a root-to-1 path and takes the false branch wherever it diverges from another path *)
-Theorem first_clause_spec b : Canonical b -> is_false b = false ->
+Theorem first_clause_spec_benign b : Benign b -> is_false b = false ->
   exists pv ds, first_clause b = Ok (Some pv) /\ path b (root b) ds 1 /\ lits_of pv ds /\
     forall ds', path b (root b) ds' 1 -> ds' = ds \/ diverges_with false ds ds'.
 Proof.
@@ -277,9 +287,15 @@ Proof.
   exists pv, (trace (wfuel b) b (low_zero b) (root b)). rewrite Hw. split; [reflexivity|]. split; [exact P|]. split; [exact Hl|].
   intros ds' P'. apply first_div; try assumption; [apply valid_root|apply root_nonzero|apply enough_root]; assumption.
 Qed.
+Print Assumptions first_clause_spec_benign.
+
+Theorem first_clause_spec b : Canonical b -> is_false b = false ->
+  exists pv ds, first_clause b = Ok (Some pv) /\ path b (root b) ds 1 /\ lits_of pv ds /\
+    forall ds', path b (root b) ds' 1 -> ds' = ds \/ diverges_with false ds ds'.
+Proof. intros C. apply first_clause_spec_benign. apply canonical_benign. exact C. Qed.
 Print Assumptions first_clause_spec.
 
-Theorem last_clause_spec b : Canonical b -> is_false b = false ->
+Theorem last_clause_spec_benign b : Benign b -> is_false b = false ->
   exists pv ds, last_clause b = Ok (Some pv) /\ path b (root b) ds 1 /\ lits_of pv ds /\
     forall ds', path b (root b) ds' 1 -> ds' = ds \/ diverges_with true ds ds'.
 Proof.
@@ -290,4 +306,10 @@ Proof.
   split; [reflexivity|]. split; [exact P|]. split; [exact Hl|].
   intros ds' P'. apply last_div; try assumption; [apply valid_root|apply root_nonzero|apply enough_root]; assumption.
 Qed.
+Print Assumptions last_clause_spec_benign.
+
+Theorem last_clause_spec b : Canonical b -> is_false b = false ->
+  exists pv ds, last_clause b = Ok (Some pv) /\ path b (root b) ds 1 /\ lits_of pv ds /\
+    forall ds', path b (root b) ds' 1 -> ds' = ds \/ diverges_with true ds ds'.
+Proof. intros C. apply last_clause_spec_benign. apply canonical_benign. exact C. Qed.
 Print Assumptions last_clause_spec.
